@@ -60,7 +60,10 @@ func (e *Expression) String() string {
 // If there are any syntax or semantic errors, this will return an
 // error indicating the reason for the compilation failure.
 func Compile(path string, options ...opts.CompileOption) (*Expression, error) {
-	options = append(options, compopts.Transform(func(e expr.Expression) expr.Expression {
+	// The variadic slice may be a window of a longer slice owned by the caller
+	// (Compile(path, all[:n]...)): cap it so that append copies instead of
+	// writing the transform into the caller's next element.
+	options = append(options[:len(options):len(options)], compopts.Transform(func(e expr.Expression) expr.Expression {
 		return storeLastExpression{e}
 	}))
 
